@@ -15,8 +15,18 @@ MIN_SEC = (1 - EPOCH_ORD) * 86400                     # 0001-01-01T00:00:00Z = -
 MAX_SEC = (_dt.date(9999, 12, 31).toordinal() - EPOCH_ORD) * 86400 + 86399   # 253402300799
 I64NS_MIN_SEC = -(2 ** 63) // 10 ** 9                 # floor: -9223372037 (first whole second representable: -9223372036)
 I64NS_MAX_SEC = (2 ** 63 - 1) // 10 ** 9              # 9223372036
-LOCAL_MIN = (_dt.date(1901, 12, 15).toordinal() - EPOCH_ORD) * 86400
-LOCAL_MAX = (_dt.date(2037, 12, 31).toordinal() - EPOCH_ORD) * 86400
+TABLE_MIN = (_dt.date(1901, 12, 15).toordinal() - EPOCH_ORD) * 86400    # 32-bit TZif era: explicit transition table
+TABLE_MAX = (_dt.date(2037, 12, 31).toordinal() - EPOCH_ORD) * 86400
+LOCAL_MIN = MIN_SEC + 10 * 86400                      # zone arithmetic is modelled for (nearly) all of years 1..9999:
+LOCAL_MAX = MAX_SEC - 10 * 86400                      # zoneinfo applies the first (LMT) type before the table and the POSIX footer after it
+
+
+def _ysec(y):
+    return (_dt.date(y, 1, 1).toordinal() - EPOCH_ORD) * 86400
+
+
+# windows in which footer-rule transitions are enumerated (the explicit table is always enumerated completely)
+FOOTER_WINDOWS = ((TABLE_MAX - 400 * 86400, _ysec(2101)), (_ysec(2400), _ysec(2401)), (_ysec(9990), _ysec(9991)))
 
 WD_FULL = ["Monday", "Tuesday", "Wednesday", "Thursday", "Friday", "Saturday", "Sunday"]
 MON_FULL = ["January", "February", "March", "April", "May", "June", "July", "August", "September",
@@ -227,7 +237,12 @@ def _cls(ch):
 
 
 def culprits(fmt, b, got):
-    """[(conversion or 'literal', what follows it in the format: a character class or the next
+    return [c[:4] for c in culprits_x(fmt, b, got)]
+
+
+def culprits_x(fmt, b, got):
+    """like culprits() with a fifth element: the part of `got` that stands where the token's text was expected.
+    [(conversion or 'literal', what follows it in the format: a character class or the next
     conversion, last character of the literal if it is a literal, last character of the literal
     before it if it is a conversion)] for every token of the format
     whose expected text does not line up with `got` in a minimum-cost alignment (each token either
@@ -236,7 +251,7 @@ def culprits(fmt, b, got):
     toks = tokenize(fmt)
     ps = strftime_pieces(fmt, b)
     if ps is None:
-        return [("?", "?", "", "")]
+        return [("?", "?", "", "", "")]
     n = len(toks)
 
     def nxt(i):
@@ -258,7 +273,7 @@ def culprits(fmt, b, got):
         pre = "".join(p for _, p in ps[:i])
         post = "".join(p for _, p in ps[i + 1:])
         if got.startswith(pre) and got.endswith(post) and len(got) > len(pre) + len(post):
-            return [report(i)]
+            return [report(i) + (got[len(pre):len(got) - len(post)],)]
     L = len(got)
     INF = 10 ** 6
     memo = {}
@@ -293,7 +308,7 @@ def culprits(fmt, b, got):
         sys.setrecursionlimit(3 * n + 200)
     cost, _ = best(0, 0)
     if cost >= INF:
-        return [("unalignable", "end", "", "")]
+        return [("unalignable", "end", "", "", got)]
     out = []
     i, pos = 0, 0
     while i < n:
@@ -302,11 +317,11 @@ def culprits(fmt, b, got):
             pos += len(ps[i][1])
         else:
             r = report(i)
-            if r not in out:
-                out.append(r)
+            if r not in [o[:4] for o in out]:
+                out.append(r + (got[pos:pos + ch],))
             pos += ch
         i += 1
-    return out or [("trailing", "end", "", "")]
+    return out or [("trailing", "end", "", "", "")]
 
 
 def culprit(fmt, b, got):
@@ -377,14 +392,8 @@ def _tzif_transitions(zone):
 _TRANS = {}
 
 
-def transitions(zone, lo=LOCAL_MIN, hi=LOCAL_MAX + 366 * 86400):
-    """sorted [(T, off_before, off_after, abbr_before, abbr_after)] with lo <= T <= hi where the
-    offset or abbreviation changes at instant T (first second of the new regime)."""
-    key = (zone, lo, hi)
-    if key in _TRANS:
-        return _TRANS[key]
-    cand = set(t for t in _tzif_transitions(zone) if lo <= t <= hi)
-    # daily scan for anything not listed explicitly (footer rules)
+def _scan(zone, lo, hi, cand):
+    """daily scan + bisection through zoneinfo: offset/abbreviation changes in [lo, hi]"""
     step = 86400
     t = lo
     prev = offset_at(t, zone)
@@ -402,14 +411,39 @@ def transitions(zone, lo=LOCAL_MIN, hi=LOCAL_MAX + 366 * 86400):
             cand.add(bb)
         prev = cur
         t = nt
+
+
+def transitions(zone):
+    """sorted [(T, off_before, off_after, abbr_before, abbr_after)] where the offset or abbreviation changes at instant T
+    (first second of the new regime): every transition of the explicit TZif table (1800s LMT changes included), everything
+    a daily scan finds in TABLE_MIN..TABLE_MAX, and the footer-rule transitions inside FOOTER_WINDOWS."""
+    if zone in _TRANS:
+        return _TRANS[zone]
+    cand = set(t for t in _tzif_transitions(zone) if LOCAL_MIN <= t <= LOCAL_MAX)
+    _scan(zone, TABLE_MIN, TABLE_MAX, cand)
+    for lo, hi in FOOTER_WINDOWS:
+        _scan(zone, lo, hi, cand)
     out = []
     for T in sorted(cand):
         ob, ab = offset_at(T - 1, zone)
         oa, aa = offset_at(T, zone)
         if (ob, ab) != (oa, aa):
             out.append((T, ob, oa, ab, aa))
-    _TRANS[key] = out
+    _TRANS[zone] = out
     return out
+
+
+def abbr_offsets(zone, abbr):
+    """every UTC offset that the abbreviation has carried in the zone (table + enumerated footer windows).  An abbreviation
+    with more than one offset (Pacific/Apia LMT +12:33:04 and -11:26:56, Europe/Dublin IST +0:34:39 and +1:00) does not
+    determine the instant of a wall-clock text."""
+    out = set()
+    for (_, ob, oa, ab, aa) in transitions(zone):
+        if ab == abbr:
+            out.add(ob)
+        if aa == abbr:
+            out.add(oa)
+    return sorted(out)
 
 
 def near_transition(sec, zone, within=2 * 86400):
